@@ -13,15 +13,19 @@ Check(e) ==
       [] e.kind = "eas" ->
         IF InRange(e.alt)
         THEN Fails(<< <<"C08 decays inside [0, 20] km are simulated", e.reached>>,
+                      (* e.f32: the batch was given in binary32 columns - the stage then works in binary32 *)
                       <<"C08 photo-electrons = photon density x area x quantum efficiency",
-                        FUlps(e.numPEs, PhotoElectrons(e.dphot, e.A, e.QE)) <= 4>>,
-                      <<"C08 effective Cherenkov angle rule", FClose(e.cosEff, CosThetaEff(e.thdeg, e.numPEs, e.thr), FDec("1e-12"), FZero)>>,
+                        FUlps(e.numPEs, PhotoElectrons(e.dphot, e.A, e.QE)) <= 4
+                        \/ (e.f32 /\ FClose(e.numPEs, PhotoElectrons(e.dphot, e.A, e.QE), FDec("1e-6"), FDec("1e-30")))>>,
+                      <<"C08 effective Cherenkov angle rule",
+                        FClose(e.cosEff, CosThetaEff(e.thdeg, e.numPEs, e.thr), IF e.f32 THEN FDec("1e-6") ELSE FDec("1e-12"), FZero)>>,
                       <<"C08 effective angle never smaller than the intrinsic angle",
-                        FLe(e.cosEff, FMul(FCos(FRadians(e.thdeg)), FDec("1.000000000001")))>> >>)
+                        FLe(e.cosEff, FMul(FCos(FRadians(e.thdeg)), IF e.f32 THEN FDec("1.000001") ELSE FDec("1.000000000001")))>> >>)
         ELSE Fails(<< <<"C08 decays outside [0, 20] km are not simulated", ~e.reached>>,
                       <<"C08 decays outside [0, 20] km give exactly zero photo-electrons", e.numPEs = FZero>>,
                       <<"C08 decays outside [0, 20] km give the default 1.5 deg angle",
-                        FUlps(e.cosEff, FCos(FRadians(DefaultAngleDeg))) <= 1>> >>)
+                        FUlps(e.cosEff, FCos(FRadians(DefaultAngleDeg))) <= 1
+                        \/ (e.f32 /\ FClose(e.cosEff, FCos(FRadians(DefaultAngleDeg)), FDec("1e-6"), FZero))>> >>)
       [] e.kind = "geo" ->
         (* the straight-line helper functions of shower_properties.py / detector_geometry.py (extended specification) *)
         LET T == FDec("1e-9") IN
